@@ -123,6 +123,8 @@ def tlc(module, cfg, *, workers=8, timeout=300, env=None, simulate=None, depth=N
         m = re.search(r"(\d+) states checked", out)
         if m:
             res["generated"] = res["distinct"] = int(m.group(1))
+    if res["violated"] is None and "Postcondition" in out and "is false" in out:
+        res["violated"] = "Accepted"      # trace validation: the POSTCONDITION of the trace spec failed (a rejected trace)
     if res["violated"] and not expect_violation:
         # a violated *design* invariant is a spec problem (tool error), unless the caller asked for it
         dump = os.path.join(WORK, "tlc-fail-%s.log" % tag)
@@ -336,5 +338,11 @@ def validate_traces(module, cfg, scenarios, tag, timeout=900):
                 idx = k
         start, sc = starts[idx]
         rejections.append({"scenario": sc, "line_in_scenario": bad_line - start + 1, **what})
-        remaining = [i for i in remaining if i != sc]
-    return len(scenarios) - len(rejections), rejections, stats
+        # the concatenated trace is consumed in order, so every scenario before the rejected one was accepted in this run:
+        # only the scenarios after it still have to be examined
+        remaining = remaining[idx + 1:]
+        if len(rejections) >= 40:
+            log("  note: 40 rejected scenarios in %s, the remaining %d scenarios are left unexamined" % (tag, len(remaining)))
+            stats["unexamined"] = len(remaining)
+            break
+    return len(scenarios) - len(rejections) - stats.get("unexamined", 0), rejections, stats
